@@ -19,6 +19,8 @@ EXTENDS Naturals, Sequences, FiniteSets, TLC, Json
 TraceLog == ndJsonDeserialize("trace.ndjson")
 VARIABLES l, cfg, pos, triple, pend, errEnded, errStarted, ctxDone, mustRollback, listenerFailed, errAtStart, cstart, cend
 tvars == <<l, cfg, pos, triple, pend, errEnded, errStarted, ctxDone, mustRollback, listenerFailed, errAtStart, cstart, cend>>
+\* errAtStart[s] is re-sampled whenever the wait of s's Close becomes able to end (last task handed to DoneTask, last
+\* child's after-close): an error that was certainly held THEN is held when the wait ends, so the triple must be rollback.
 
 Ev == TraceLog[l]
 IsEv(k) == l <= Len(TraceLog) /\ Ev.ev = k /\ l' = l + 1
@@ -35,6 +37,10 @@ DoneExpected(s) == LET o == cfg[s].ctx IN ctxDone[o] \/ (cfg[o].parent # "" /\ c
 RECURSIVE PossErr(_)
 PossErr(s) == LET o == cfg[s].ctx IN errStarted[o] \/ (cfg[o].parent # "" /\ cfg[o].isolated /\ PossErr(cfg[o].parent))
 
+WaitCanEnd(s, pnd, ps) == pnd[s] = 0 /\ \A c \in { c \in DOMAIN cfg : cfg[c].parent = s } : ps[c] = 5
+\* re-sample for every scope whose wait has just become able to end (and whose triple has not started)
+Resample(pnd, ps, ee) == [s \in DOMAIN cfg |-> IF ps[s] <= 1 /\ WaitCanEnd(s, pnd, ps) /\ ~WaitCanEnd(s, pend, pos) THEN (errAtStart[s] \/ ee[cfg[s].ctx]) ELSE errAtStart[s]]
+
 Init == /\ l = 1 /\ cfg = << >> /\ pos = << >> /\ triple = << >> /\ pend = << >> /\ errEnded = << >> /\ errStarted = << >>
         /\ ctxDone = << >> /\ mustRollback = << >> /\ listenerFailed = << >> /\ errAtStart = << >> /\ cstart = << >> /\ cend = << >>
 
@@ -50,7 +56,8 @@ Reset == /\ IsEv("reset")
             /\ errAtStart' = [id \in ids |-> FALSE] /\ cstart' = [id \in ids |-> 0] /\ cend' = [id \in ids |-> 0]
 Same(vs) == UNCHANGED vs
 DoneStart == /\ IsEv("done.start") /\ pend[Ev.scope] > 0 /\ pend' = [pend EXCEPT ![Ev.scope] = @ - 1]
-             /\ UNCHANGED <<cfg, pos, triple, errEnded, errStarted, ctxDone, mustRollback, listenerFailed, errAtStart, cstart, cend>>
+             /\ errAtStart' = Resample(pend', pos, errEnded)
+             /\ UNCHANGED <<cfg, pos, triple, errEnded, errStarted, ctxDone, mustRollback, listenerFailed, cstart, cend>>
 IsErr(w) == w \in {"append", "kill"}
 FailStart == /\ IsEv("fail.start") /\ errStarted' = [errStarted EXCEPT ![Ev.ctx] = @ \/ IsErr(Ev.what)]
              /\ UNCHANGED <<cfg, pos, triple, pend, errEnded, ctxDone, mustRollback, listenerFailed, errAtStart, cstart, cend>>
@@ -88,7 +95,8 @@ Event == /\ IsEv("event")
                     /\ ctxDone' = [ctxDone EXCEPT ![cfg[s].ctx] = @ \/ Ev.fails]
                     /\ mustRollback' = [mustRollback EXCEPT ![s] = @ \/ (Ev.fails /\ Ev.name = "bclose")]
                     /\ listenerFailed' = [listenerFailed EXCEPT ![s] = @ \/ Ev.fails]
-         /\ UNCHANGED <<cfg, pend, errAtStart, cstart, cend>>
+         /\ errAtStart' = IF Ev.owner = Ev.subject THEN Resample(pend, pos', errEnded') ELSE errAtStart
+         /\ UNCHANGED <<cfg, pend, cstart, cend>>
 CloseEnd == /\ IsEv("close.end")
             /\ LET s == Ev.scope IN
                /\ ~Ev.panic /\ pos[s] = 5 /\ cend[s] = 0
